@@ -1832,19 +1832,18 @@ def run_leg(lang: str, argv: Sequence[str], shard: int, shards: int) -> Dict[str
         if chk.tier == "thorough":
             chunk *= 3
         done = 0
-        first = True
+        # every shard judges the systematic values before anything else: they also serve
+        # as the already judged pieces when failures of longer values are localised
+        t_sys = time.time()
+        run.run_batch(systematic_strings(), FIXED_PAIRS, systematic_bytes())
+        chk.extra[f"{lang}_systematic_seconds"] = round(time.time() - t_sys, 1)
+        chk.count(f"{lang}_values", len(systematic_strings()))
         while done < per_shard:
-            if not first and chk.elapsed() > budget:
+            if chk.elapsed() > budget:
                 chk.count(f"{lang}_stopped_by_wall_budget")
                 break
             strings: List[str] = []
             byte_values: List[bytes] = []
-            if first:
-                # every shard judges the systematic values first: they also serve as the
-                # already judged pieces when failures of longer values are localised
-                t_sys = time.time()
-                run.run_batch(systematic_strings(), FIXED_PAIRS, systematic_bytes())
-                chk.extra[f"{lang}_systematic_seconds"] = round(time.time() - t_sys, 1)
             n = min(chunk, per_shard - done)
             while len(strings) < n:
                 strings.append(gen_string(rng))
@@ -1864,7 +1863,6 @@ def run_leg(lang: str, argv: Sequence[str], shard: int, shards: int) -> Dict[str
                 chk.extra.get(f"{lang}_random_seconds", 0.0) + time.time() - t_batch, 1)
             done += len(strings)
             chk.count(f"{lang}_values", len(strings))
-            first = False
     except BaseException as err:  # noqa
         if isinstance(err, (KeyboardInterrupt, SystemExit)):
             raise
